@@ -267,3 +267,6 @@ fn tamper_check<const ZSTD: bool>() {
     std::mem::forget(bad); std::mem::forget(enc); std::mem::forget(be); std::mem::forget(rec);
 }
 
+
+/// accessors for other harness modules (fields are private to backend::decrypt)
+pub(crate) fn settings<C: CryptoKey>(be: &DecryptBackend<C>) -> (Option<i32>, bool) { (be.zstd, be.extra_verify) }
